@@ -174,8 +174,7 @@ def check_query(ml, cls, lname, L, prepkind, pool, idx, dt, method, seed):
   inp = dict(estimator=cls, components_=np.asarray(L).tolist(), transformation=lname, preprocessor=prepkind, pool=Xnp.tolist(),
              indicators=np.asarray(idx).tolist(), indicator_dtype=dt, method=method, y=None if y is None else y.tolist())
   m = method.split(':')[0]
-  if o_formed[0] == 'raised':
-    return dict(tag=m + '/formed-data-accepted', observed='formed data: ' + describe(o_formed), input=inp)
+  # (if the method rejects the formed data, equivalence only asks for the same rejection under the other representation)
   if not equal_outcomes(o_idx, o_formed):
     return dict(tag=m + '/indicators-equal-formed', observed='with indicators: %s; with formed data: %s' % (describe(o_idx), describe(o_formed)), input=inp)
   if log is not None and len(log) != 0:
